@@ -595,9 +595,18 @@ def boundary_module(rng, quick=True):
     types.append(("BTagS", T("SEQUENCE", comps=[{"id": f"t{n}", "type": T("INTEGER", cons=cons(0, 255), tag=("ctx", n, m)), "opt": "OPTIONAL"}
                                                 for n, m in zip(tagnums, ["IMPLICIT", "EXPLICIT"] * 6)])))
     vals["BTagS"] = [{f"t{n}": n % 256 for n in tagnums}, {}, {"t31": 1}, {"t16384": 2, "t0": 0}]
-    types.append(("BTagC", T("CHOICE", comps=[{"id": f"c{n}", "type": T("NULL", tag=(cl, n, "")) } for cl, n in
-                                               [("ctx", 0), ("ctx", 31), ("app", 5), ("priv", 6), ("ctx", 127), ("ctx", 128), ("ctx", 16384), ("app", 16383)]])))
-    vals["BTagC"] = [(f"c{n}", None) for n in (0, 31, 5, 6, 127, 128, 16384, 16383)]
+    types.append(("BTagC", T("CHOICE", comps=[{"id": (f"c{n}" if cl in ("ctx",) or (cl, n) in (("app", 5), ("priv", 6), ("app", 16383)) else f"{cl}{n}"), "type": T("NULL", tag=(cl, n, "")) } for cl, n in
+                                               [("ctx", 0), ("ctx", 31), ("app", 5), ("priv", 6), ("ctx", 127), ("ctx", 128), ("ctx", 16384), ("app", 16383),
+                                                ("ctx", 62), ("ctx", 63), ("ctx", 64), ("priv", 63), ("app", 30)]])))
+    vals["BTagC"] = [(f"c{n}", None) for n in (0, 31, 5, 6, 127, 128, 16384, 16383, 62, 63, 64)]
+    # open types (extension additions / extension alternatives) whose inner encoding hits the 16K fragmentation boundaries
+    types.append(("BExtS", T("SEQUENCE", comps=[{"id": "a", "type": T("BOOLEAN", tag=("ctx", 0, ""))},
+                                                {"id": "x", "type": T("OCTET STRING", size=None, tag=("ctx", 1, "")), "opt": "OPTIONAL"}], ext=1)))
+    types.append(("BExtC", T("CHOICE", comps=[{"id": "a", "type": T("NULL", tag=("ctx", 0, ""))},
+                                              {"id": "x", "type": T("OCTET STRING", size=None, tag=("ctx", 1, ""))}], ext=1)))
+    osz = [0, 1, 125, 126, 127, 16381, 16382, 16383, 32765, 32766, 49149, 65532, 65533]
+    vals["BExtS"] = [{"a": True}] + [{"a": False, "x": rb(n)} for n in osz]
+    vals["BExtC"] = [("a", None)] + [("x", rb(n)) for n in osz]
     return {"name": "BND", "tagdefault": "IMPLICIT", "types": types}, vals
 
 # ------------------------------------------------------------------ Lean-side renderings (L2 model)
